@@ -109,6 +109,10 @@ func (p *parser) parseMessage() (ok bool) {
 
 	case sTypeSelectReq, sTypeSelectRsp, sTypeDeselectReq, sTypeDeselectRsp,
 		sTypeLinktestReq, sTypeLinktestRsp, sTypeRejectReq, sTypeSeparateReq:
+		if p.msgLength != 10 {
+			// A control message consists of the header only
+			return false
+		}
 		p.msg = ast.NewHSMSControlMessage(headerBytes)
 		return true
 
